@@ -12,10 +12,12 @@ Oracle, written from the property text (independent of the model; brute-force di
                   (Hamming if indels are off) distance to the adapter equal to match.errors; errors <= int(rate*len)
   (b) uniqueness  N-free read on which exactly one indexed adapter has an anchored occurrence within its tolerance
                   -> the index returns that adapter
-  (c) agreement   equal lengths, no indels, N-free read, nearest adapter strictly closer than the second nearest
+  (c) agreement   equal lengths, no indels, N-free read, nearest adapter strictly closer than the second nearest (and no tie
+                  among the adapters that are within their own tolerance, which can differ inside one set)
                   -> MultipleAdapters(adapters).match_to(read) and the indexed search return the same adapter with the
                      same coordinates and errors, for several orders of the adapter list
 """
+import functools
 import itertools
 import logging
 import os
@@ -94,6 +96,7 @@ def eqc(a, r):
     return a.upper() == r.upper()
 
 
+@functools.lru_cache(maxsize=400000)
 def affix_distance(seq, affix, indels):
     if indels:
         return OA.dist(seq, affix, eqc, 1)
@@ -170,8 +173,15 @@ def oracle_read(ctx, kind, indels, ads, adapters, ix, read, perms):
     L = len(adapters[0].sequence)
     if not indels and len(adapters) >= 2 and all(len(a.sequence) == L for a in adapters) and len(read) >= L:
         aff = read[:L] if kind == "prefix" else read[len(read) - L:]
-        ds = sorted(affix_distance(a.sequence, aff, False) for a in adapters)
-        if ds[0] < ds[1]:
+        dl = [affix_distance(a.sequence, aff, False) for a in adapters]
+        ds = sorted(dl)
+        # adapters of one set may have different tolerances: when the strictly nearest adapter is outside its own
+        # tolerance and the nearest *admissible* ones tie, "not equally close to its two nearest adapters" is not
+        # clear-cut (one-by-one search takes the first of the tied adapters, the index none) - not counted either way
+        adm = sorted(d for d, a in zip(dl, adapters) if d <= tol(a))
+        if ds[0] < ds[1] and len(adm) >= 2 and adm[0] == adm[1]:
+            ctx.count("oracle:agreement-skipped-tie-among-admissible")
+        elif ds[0] < ds[1]:
             ctx.count("oracle:agreement-applicable")
             for order, p_adapters, p_ix, p_multi in perms:
                 a_ = p_ix.match_to(read)
@@ -436,11 +446,11 @@ def sphere_env_exhaustive(ctx, maxlen):
             s = "".join(s)
             for k in range(0, 5):
                 hs.append((f"hsphere {hx(s)} {k}", ",".join(hx(x) for x in hamming_sphere(s, k))))
-            for k in range(0, 4):
+            for k in range(0, 4 if L < maxlen else 3):
                 ee.append((f"editenv {hx(s)} {k}", ",".join(f"{hx(x)}:{e}:{m}" for x, e, m in edit_environment(s, k))))
     correspond16(ctx, "hsphere", hs)
     correspond16(ctx, "editenv", ee)
-    ctx.notes.append(f"exhaustive sub-scope: hamming_sphere (k <= 4) and edit_environment (k <= 3) for every string over ACGT up to length {maxlen}")
+    ctx.notes.append(f"exhaustive sub-scope: hamming_sphere (k <= 4) and edit_environment (k <= 3; k <= 2 at the maximal length) for every string over ACGT up to length {maxlen}")
 
 
 FIXED_SETS = [
@@ -455,15 +465,35 @@ FIXED_SETS = [
 ]
 
 
-def random_sets(ctx, nsets, reads_per_set, maxlen, heavy_ok, extra_perms, dump_every):
+def _set_worker(args):
+    kind, indels, ads, reads, extra_perms, dump, seed = args
+    mc = _MiniCtx(seed)
     lookups, dumps = [], []
-    for kind, indels, ads, reads in FIXED_SETS:
-        run_set(ctx, kind, indels, ads, reads, lookups, dumps, 2, True)
+    run_set(mc, kind, indels, ads, reads, lookups, dumps, extra_perms, dump)
+    return lookups, dumps, mc.failures, mc.distribution, mc.nontrivial, mc.evaluations
+
+
+def random_sets(ctx, nsets, reads_per_set, maxlen, heavy_ok, extra_perms, dump_every, workers=16):
+    import multiprocessing as mp
+    tasks = [(kind, indels, ads, reads, 2, True, ctx.seed * 104729 + i) for i, (kind, indels, ads, reads) in enumerate(FIXED_SETS)]
     for i in range(nsets):
         kind, indels, ads = gen_set(ctx, maxlen, ctx.rng.random() < heavy_ok)
         reads = gen_reads(ctx, kind, indels, ads, reads_per_set)
         small = sum((4 * len(s)) ** tolk(s, r) for s, r in ads) < 4000
-        run_set(ctx, kind, indels, ads, reads, lookups, dumps, extra_perms, small and i % dump_every == 0)
+        tasks.append((kind, indels, ads, reads, extra_perms, small and i % dump_every == 0, ctx.seed * 104729 + 1000 + i))
+    with mp.get_context("fork").Pool(workers) as pool:
+        results = list(pool.imap(_set_worker, tasks, chunksize=4))
+    lookups, dumps = [], []
+    for lk, dp, fails, dist, nontriv, evals in results:
+        lookups += lk
+        dumps += dp
+        for f in fails:
+            if sum(1 for g in ctx.failures if g.signature == f.signature) < MAX_RECORDED_PER_SIG:
+                ctx.failures.append(f)
+        for key, v in dist.items():
+            ctx.count(key, v)
+        ctx.nontrivial |= nontriv
+        ctx.evaluations += evals
     for c in lookups[:3] + lookups[len(FIXED_SETS):len(FIXED_SETS) + 2]:
         ctx.sample(dict(op_line=c[0][:300], impl=c[1][:200]))
     correspond16(ctx, "indexlookup", lookups)
@@ -507,6 +537,7 @@ class _MiniCtx:
     def __init__(self, seed):
         import random
         self.failures, self.distribution, self.nontrivial = [], {}, set()
+        self.evaluations = 0
         self.rng = random.Random(seed)
 
     def count(self, key, n=1):
@@ -517,53 +548,62 @@ class _MiniCtx:
 
 
 def _exh_worker(args):
-    first_list, max_a, max_r, deadline, seed = args
+    """one task = one first adapter x one slice of the second adapters x all 8 configurations x every read"""
+    first, part, nparts, max_a, max_r, deadline, seed = args
     mc = _MiniCtx(seed)
     reads = _all_reads(max_r)
-    seconds = ["".join(p) for L in range(1, max_a + 1) for p in itertools.product("ACGT", repeat=L)]
+    seconds = ["".join(p) for L in range(1, max_a + 1) for p in itertools.product("ACGT", repeat=L)][part::nparts]
     lookups, dumps = [], []
     done = 0
     evals = 0
-    for first in first_list:
-        for second in seconds:
-            if second == first:
-                continue
-            if time.time() > deadline:
-                return mc.failures, mc.distribution, len(mc.nontrivial), lookups, dumps, done, evals, False
-            for kind in ("prefix", "suffix"):
-                for indels in (False, True):
-                    for k in (0, 1):
-                        ads = [(first, 0.0 if k == 0 else _k1_rate(len(first))), (second, 0.0 if k == 0 else _k1_rate(len(second)))]
-                        adapters, ix, err = build_real(kind, indels, ads)
-                        perms = make_perms(mc, kind, indels, ads, adapters, ix, 1)
-                        for rd in reads:
-                            oracle_read(mc, kind, indels, ads, adapters, ix, rd, perms)
-                        evals += len(reads)
-                        if mc.rng.random() < 0.02:
-                            dumps.append((set_line("indexdump", kind, indels, ads, []), dump_real(ix)))
-                            sample = [mc.rng.choice(reads) for _ in range(40)] + [first, second]
-                            lookups.append((set_line("indexlookup", kind, indels, ads, sample),
-                                            " | ".join(show(adapters, ix.match_to(r)) for r in sample)))
-            done += 1
-    return mc.failures, mc.distribution, len(mc.nontrivial), lookups, dumps, done, evals, True
+    complete = True
+    for second in seconds:
+        if second == first:
+            continue
+        if time.time() > deadline:
+            complete = False
+            break
+        for kind in ("prefix", "suffix"):
+            for indels in (False, True):
+                for k in (0, 1):
+                    ads = [(first, 0.0 if k == 0 else _k1_rate(len(first))), (second, 0.0 if k == 0 else _k1_rate(len(second)))]
+                    adapters, ix, err = build_real(kind, indels, ads)
+                    perms = make_perms(mc, kind, indels, ads, adapters, ix, 1)
+                    for rd in reads:
+                        oracle_read(mc, kind, indels, ads, adapters, ix, rd, perms)
+                    evals += len(reads)
+                    if mc.rng.random() < 0.02:
+                        dumps.append((set_line("indexdump", kind, indels, ads, []), dump_real(ix)))
+                        sample = [mc.rng.choice(reads) for _ in range(40)] + [first, second]
+                        lookups.append((set_line("indexlookup", kind, indels, ads, sample),
+                                        " | ".join(show(adapters, ix.match_to(r)) for r in sample)))
+        done += 1
+    return first, mc.failures, mc.distribution, lookups, dumps, done, evals, complete
 
 
-def exhaustive_pairs(ctx, max_a, max_r, budget_s, workers=16):
+def exhaustive_pairs(ctx, max_a, max_r, budget_s, workers=16, nparts=8):
     import multiprocessing as mp
     firsts = [s for L in range(1, max_a + 1) for s in ("".join(p) for p in itertools.product("ACGT", repeat=L)) if _canonical(s)]
-    ctx.rng.shuffle(firsts)
+    # shortest first: the scope "first adapter <= max_a - 1" is finished before the (much larger) rest is started
+    by_len = {}
+    for f in firsts:
+        by_len.setdefault(len(f), []).append(f)
+    ordered = []
+    for L in sorted(by_len):
+        ctx.rng.shuffle(by_len[L])
+        ordered += by_len[L]
     deadline = time.time() + budget_s
-    chunks = [firsts[i::workers * 4] for i in range(workers * 4)]
-    chunks = [c for c in chunks if c]
+    tasks = [(f, part, nparts, max_a, max_r, deadline, ctx.seed * 7919 + i * nparts + part)
+             for i, f in enumerate(ordered) for part in range(nparts)]
     with mp.get_context("fork").Pool(workers) as pool:
-        results = pool.map(_exh_worker, [(c, max_a, max_r, deadline, ctx.seed * 7919 + i) for i, c in enumerate(chunks)], chunksize=1)
+        results = list(pool.imap(_exh_worker, tasks, chunksize=1))
     lookups, dumps = [], []
-    total_pairs = sum(len(c) for c in chunks) * (sum(4 ** L for L in range(1, max_a + 1)) - 1)
+    nsecond = sum(4 ** L for L in range(1, max_a + 1))
+    total_pairs = len(firsts) * (nsecond - 1)
     done = evals = 0
-    complete = True
-    for fails, dist, nt, lk, dp, d, ev, ok in results:
+    full = {f: True for f in firsts}
+    for first, fails, dist, lk, dp, d, ev, ok in results:
         for f in fails:
-            ctx.count("oracle:" + f.signature, 0)
             if sum(1 for g in ctx.failures if g.signature == f.signature) < MAX_RECORDED_PER_SIG:
                 ctx.failures.append(f)
         for key, v in dist.items():
@@ -572,22 +612,26 @@ def exhaustive_pairs(ctx, max_a, max_r, budget_s, workers=16):
         dumps += dp
         done += d
         evals += ev
-        complete = complete and ok
+        full[first] = full[first] and ok
     ctx.evaluations += evals
     correspond16(ctx, "indexlookup", lookups)
     correspond16(ctx, "indexdump", dumps)
+    complete = all(full.values())
     ctx.exhaustive = complete
+    per_len = {L: (sum(1 for f in by_len[L] if full[f]), len(by_len[L])) for L in sorted(by_len)}
     ctx.notes.append(
         f"small scope: first adapter = one representative per renaming of the alphabet (length <= {max_a}), second adapter = every other "
-        f"string of length <= {max_a}, both adapter types, indels on/off, k in {{0,1}}, every read over ACGT of length <= {max_r}: "
-        f"{done} of {total_pairs} adapter pairs done ({'complete' if complete else 'time budget reached'}), {evals} oracle evaluations on the real code")
+        f"string of length <= {max_a} (ordered pairs), both adapter types, indels on/off, k in {{0,1}}, every read over ACGT of length <= {max_r}: "
+        f"{done} of {total_pairs} adapter pairs done ({'complete' if complete else 'time budget reached'}); first adapters finished against "
+        f"every second adapter, by length: " + ", ".join(f"{L}: {a}/{b}" for L, (a, b) in per_len.items())
+        + f"; {evals} oracle evaluations on the real code")
 
 
 # ------------------------------------------------------------------------------------------------
 
 def run(ctx):
     _mods()
-    ctx.rule = ("sets of 2-8 anchored 5' or 3' adapters over ACGT, lengths 4-12 (thorough: up to 16), 0-3 allowed errors (rates and absolute "
+    ctx.rule = ("sets of 2-8 anchored 5' or 3' adapters over ACGT, lengths 4-12 (thorough: up to 14), 0-3 allowed errors (rates and absolute "
                 "counts with int(len*rate) in 0..3), equal and mixed lengths, near-duplicates (1-2 substitutions/indels apart, one a prefix/"
                 "suffix of another, several variants at one position), indels on/off; reads: mutated adapter copy + random tail/head, exactly one "
                 "adapter, shorter than the longest indexed string, random, two adapters, with N, lower-case; non-trivial = distinct (set, read) "
@@ -595,10 +639,10 @@ def run(ctx):
     sphere_env_cases(ctx, ctx.scale(1500, 8000))
     if ctx.tier == "thorough":
         sphere_env_exhaustive(ctx, 5)
-        random_sets(ctx, 12000, 16, 16, 1.0, 3, 4)
+        random_sets(ctx, 10000, 16, 14, 1.0, 3, 4)
         exhaustive_pairs(ctx, 5, 6, float(os.environ.get("VERIF_C08_BUDGET", "900")))
     else:
-        random_sets(ctx, 1300, 14, 12, 0.08, 2, 3)
+        random_sets(ctx, 3000, 14, 12, 0.04, 2, 3)
 
 
 def extended_search(ctx):
